@@ -46,11 +46,69 @@ FIXED = ["", " ", "\n\r\t ", "junk", "<", ">", "<a>", "<A", "A>", "</A>", "<A>",
 def run(ctx):
     from ofxtools.Parser import TreeBuilder
     rng = ctx.rng
-    docs = {}     # doc -> fault kind (first seen)
+    regex = TreeBuilder.regex
+    seen = set()
+    batch = []    # (doc, fault kind)
+
+    vbuf = wire.ViolationBuffer(ctx)
+    violate = vbuf.add
 
     def add(kind, doc):
-        if doc not in docs:
-            docs[doc] = kind
+        if doc in seen:
+            return
+        seen.add(doc)
+        batch.append((doc, kind))
+        if len(batch) >= 30000:
+            flush()
+
+    def flush():
+        items = list(batch)
+        del batch[:]
+        if items:
+            process(items)
+
+    def process(items):
+        rb = ctx.model.ask([line("build", d) for d, _ in items])
+        rs = ctx.model.ask([line("spec.balanced", d) for d, _ in items])
+        rl = ctx.model.ask([line("lex", d) for d, _ in items])
+        for (doc, kind), b, sb, l in zip(items, rb, rs, rl):
+            impl, ikind = impl_build(TreeBuilder, doc)
+            model, mkind = model_build(b)
+            ref = wire.ref_result(doc)
+            returned_root = impl[0] == "ok" and impl[1] != "none"
+            returned_none = impl == ["ok", "none"]
+            ctx.stat("fault:" + kind)
+            ctx.stat("impl:" + ("root" if returned_root else "none" if returned_none else "err:" + str(ikind)))
+            ctx.stat("ref:" + (ref[0] if ref[0] == "ok" else ref[1]))
+            ctx.compare("build", {"doc": doc}, impl, model, nontrivial=(kind not in ("valid", "soup")))
+            ctx.compare("lex", {"doc": doc}, canon_lex(regex, doc), l.vals[0] if l.ok else l.raw, nontrivial=False)
+            ctx.sample({"case": {"doc": doc, "fault": kind}, "impl": impl, "model": model, "reference": ref})
+            case = {"doc": doc, "fault": kind}
+            # ---- oracle ----
+            if ref[0] == "reject" and (returned_root or returned_none):
+                tag = "empty_body_returns_none" if returned_none else REF2TAG[ref[1]]
+                if returned_root and wire.CDO in doc and not wire.cd_safe(doc):
+                    tag = "greedy_cdata_swallows_markup"
+                violate(tag, case,
+                            f"body {doc[:80]!r} is not well-formed ({ref[1]}) but feed()+close() returned "
+                            f"{'None without raising' if returned_none else 'a root'}",
+                            {"reference": ref[1], "returned": "none" if returned_none else "root"})
+            if ref[0] == "ok" and kind == "valid":
+                ctx.evaluations += 1
+                if impl != ["ok", ["some", wire.abs_canon(ref[1])]]:
+                    ctx.disagree("valid-base-vs-reference", case, ref, impl)
+            # ---- the Lean `Balanced` predicate agrees with the reference on what is well-formed, wherever the reference's
+            #      verdict does not hinge on characters the regex skips (malformed markup, text before the root) ----
+            if wire.CDO in doc:
+                pass        # the regex's token list of CDATA bodies differs from the reference's where C02's guards fail
+            elif sb.ok and ref[0] == "ok":
+                ctx.evaluations += 1
+                if sb.vals[0] != "T":
+                    ctx.disagree("spec.balanced", case, "T", sb.vals[0])
+            elif sb.ok and ref[1] in ("unclosed_at_eof", "mismatched_end_tag", "stray_end_tag", "second_root", "text_after_root"):
+                ctx.evaluations += 1
+                if sb.vals[0] != "F":
+                    ctx.disagree("spec.balanced", case, "F", sb.vals[0])
 
     for d in FIXED:
         add("fixed", d)
@@ -91,49 +149,8 @@ def run(ctx):
     for _ in range(m):
         add("soup", wire.soup(rng, rng.choice((1, 2, 3, 5, 8, 12))))
 
-    items = list(docs.items())
-    rb = ctx.model.ask([line("build", d) for d, _ in items])
-    rs = ctx.model.ask([line("spec.balanced", d) for d, _ in items])
-    rl = ctx.model.ask([line("lex", d) for d, _ in items])
-    regex = TreeBuilder.regex
-    for (doc, kind), b, sb, l in zip(items, rb, rs, rl):
-        impl, ikind = impl_build(TreeBuilder, doc)
-        model, mkind = model_build(b)
-        ref = wire.ref_result(doc)
-        returned_root = impl[0] == "ok" and impl[1] != "none"
-        returned_none = impl == ["ok", "none"]
-        ctx.stat("fault:" + kind)
-        ctx.stat("impl:" + ("root" if returned_root else "none" if returned_none else "err:" + str(ikind)))
-        ctx.stat("ref:" + (ref[0] if ref[0] == "ok" else ref[1]))
-        ctx.compare("build", {"doc": doc}, impl, model, nontrivial=(kind not in ("valid", "soup")))
-        ctx.compare("lex", {"doc": doc}, canon_lex(regex, doc), l.vals[0] if l.ok else l.raw, nontrivial=False)
-        ctx.sample({"case": {"doc": doc, "fault": kind}, "impl": impl, "model": model, "reference": ref})
-        case = {"doc": doc, "fault": kind}
-        # ---- oracle ----
-        if ref[0] == "reject" and (returned_root or returned_none):
-            tag = "empty_body_returns_none" if returned_none else REF2TAG[ref[1]]
-            if returned_root and wire.CDO in doc and not wire.cd_safe(doc):
-                tag = "greedy_cdata_swallows_markup"
-            ctx.violate(tag, case,
-                        f"body {doc[:80]!r} is not well-formed ({ref[1]}) but feed()+close() returned "
-                        f"{'None without raising' if returned_none else 'a root'}",
-                        {"reference": ref[1], "returned": "none" if returned_none else "root"})
-        if ref[0] == "ok" and kind == "valid":
-            ctx.evaluations += 1
-            if impl != ["ok", ["some", wire.abs_canon(ref[1])]]:
-                ctx.disagree("valid-base-vs-reference", case, ref, impl)
-        # ---- the Lean `Balanced` predicate agrees with the reference on what is well-formed, wherever the reference's
-        #      verdict does not hinge on characters the regex skips (malformed markup, text before the root) ----
-        if wire.CDO in doc:
-            pass        # the regex's token list of CDATA bodies differs from the reference's where C02's guards fail
-        elif sb.ok and ref[0] == "ok":
-            ctx.evaluations += 1
-            if sb.vals[0] != "T":
-                ctx.disagree("spec.balanced", case, "T", sb.vals[0])
-        elif sb.ok and ref[1] in ("unclosed_at_eof", "mismatched_end_tag", "stray_end_tag", "second_root", "text_after_root"):
-            ctx.evaluations += 1
-            if sb.vals[0] != "F":
-                ctx.disagree("spec.balanced", case, "F", sb.vals[0])
+    flush()
+    vbuf.emit()
 
 
 def replay(ctx, data):
